@@ -216,6 +216,17 @@ func genTransfer(s *src, o *out) {
 		die("sendPrefixHash / recvPrefixHash: the guard that skips the resume exchange changed")
 	}
 	o.raw("Definition tr_resume_skipped_for_empty_target : bool := true.\n")
+	// below this protocol sendPrefixHash announces the source size (a SIZE that is not echoed) and
+	// recvPrefixHash reads it; both ends must switch at the same version
+	ns, nr := protoOf("trzszTransfer.sendPrefixHash", "if t.transferConfig.Protocol < "), protoOf("trzszTransfer.recvPrefixHash", "if t.transferConfig.Protocol < ")
+	if ns != nr {
+		die("sendPrefixHash and recvPrefixHash switch the SIZE announcement at different protocol versions (%d, %d)", ns, nr)
+	}
+	if strings.Count(sp, "t.transferConfig.Protocol < ") != 1 || strings.Count(rp, "t.transferConfig.Protocol < ") != 1 ||
+		!strings.Contains(sp, `t.sendInteger("SIZE", srcFile.Size)`) || !strings.Contains(rp, `t.recvInteger("SIZE", false, t.getNewTimeout())`) {
+		die("sendPrefixHash / recvPrefixHash: the SIZE announcement below protocol %d changed shape", ns)
+	}
+	o.defN("tr_proto_resume_nosize", ns)
 
 	// call order
 	o.raw("Definition tr_send_files_calls : list (list N) := %s.\n",
